@@ -88,7 +88,13 @@ func main() { vlib.Run("C01", run) }
 
 func run(c *vlib.Ctx) {
 	c.Rule("histories of 5-80 ops {Put,PutMany,Delete,Get,Has,GetSize,View,AllKeysChan,AllKeysChanWithErr} over 8 payloads x 7 CID forms (v0/v1 aliases, blake2b, sha2-512, identity) x {WriteThrough,NoPrefix,IdStore}; distinct = FNV of config+op list; non-trivial = history has a delete, an access through an alias of a stored multihash, and an identity CID")
-	c.Cases("hist", c.N(2000, 100000), oneHistory)
+	c.Cases("hist", c.N(2000, 100000), func(k *vlib.Case) { oneHistory(k, false) })
+	// WriteThrough stratum with overwrites: under WriteThrough every put is
+	// written, so a put of different bytes under an already stored multihash
+	// (e.g. repairing a corrupt value) must become the bytes served. Without
+	// WriteThrough an existing key is deliberately not rewritten, so such
+	// blocks are only generated here.
+	c.Cases("wt-rewrite", c.N(600, 30000), func(k *vlib.Case) { oneHistory(k, true) })
 }
 
 type world struct {
@@ -102,10 +108,13 @@ type world struct {
 	ctx     context.Context
 }
 
-func oneHistory(k *vlib.Case) {
+func oneHistory(k *vlib.Case, rewrite bool) {
 	r := k.R
 	ctx := context.Background()
 	wt, np, ids := r.Bool(), r.Bool(), r.Bool()
+	if rewrite {
+		wt = true
+	}
 	base := dssync.MutexWrap(ds.NewMapDatastore())
 	tap := &tapDS{Batching: base}
 	var opts []bstore.Option
@@ -135,6 +144,16 @@ func oneHistory(k *vlib.Case) {
 		}
 		return f.mk(p), p, f.name
 	}
+	// pickPut is pick for put operations: in the rewrite stratum a third of
+	// the puts carry other bytes than the ones the CID was derived from.
+	pickPut := func() (cid.Cid, []byte, string) {
+		c, p, fn := pick()
+		if rewrite && r.Chance(1, 3) {
+			p = pool[r.Intn(len(pool))]
+			fn += "+otherbytes"
+		}
+		return c, p, fn
+	}
 
 	sawDelete, sawAlias, sawIdent := false, false, false
 	storedVia := map[string]string{} // multihash -> form name used for the put
@@ -143,7 +162,7 @@ func oneHistory(k *vlib.Case) {
 		op := r.Intn(100)
 		switch {
 		case op < 22: // Put
-			c, data, fn := pick()
+			c, data, fn := pickPut()
 			k.Logf("Put %s len=%d %s", fn, len(data), c)
 			blk, err := blocks.NewBlockWithCid(data, c)
 			if err != nil {
@@ -164,7 +183,7 @@ func oneHistory(k *vlib.Case) {
 			var blks []blocks.Block
 			var desc []string
 			for j := 0; j < m; j++ {
-				c, data, fn := pick()
+				c, data, fn := pickPut()
 				if j > 0 && r.Chance(1, 4) { // duplicate of an earlier one in the batch
 					blks = append(blks, blks[r.Intn(len(blks))])
 					desc = append(desc, "dup")
